@@ -19,6 +19,9 @@ Decides:
  W wrappers hand hints over   fallback / fallback_with move the hints collected on the scratch clone back to the caller's
                    state on EVERY failure of the inner parser (catchable or not); parse_option does so when it swallows one.
  D dispatch        revision -> renderer table (shared with C15).
+ L last of line   touching_last_remove compares the consumed index with the length of the WHOLE item list (not the end of the current
+                   scope, which inside an adjacent group is not what the user is typing).
+ H hints put back complete(..)/complete_shell(..) put every stashed hint that is not a metavariable back through push_comp.
 Does not decide: the candidate set for a given prefix (depth / prefix filtering is value-level)."""
 import re
 from core import *
